@@ -77,6 +77,11 @@ pub struct Lifetime {
     /// refuses to release that trampoline): every function must be restored all the same
     #[serde(default)]
     pub munmap_fault: u8,
+    /// k > 0: just before the k-th `mmap` of this lifetime reaches the kernel, another part of the
+    /// program maps the hinted page for itself: that page is not the injector's, whatever it
+    /// believed a moment ago
+    #[serde(default)]
+    pub race_map: u8,
 }
 
 #[derive(Serialize, Deserialize, Clone, Debug, Hash, PartialEq, Eq)]
@@ -167,6 +172,10 @@ pub struct LifeObs {
     pub exit: String,
     #[serde(default)]
     pub munmap_fault_hit: bool,
+    /// pages somebody else mapped just before the injector asked for them: (page, still mapped,
+    /// content intact) after the lifetime
+    #[serde(default)]
+    pub raced: Vec<(u64, bool, bool)>,
     pub drop_panicked: Option<String>,
     pub drop_log: Vec<LogEv>,
     /// (target index, bytes now, value if it was safe to call)
@@ -307,6 +316,10 @@ fn execute_inner(c: &HistCase, opts: &Opts) -> HistObs {
             code.extend_from_slice(&id.to_le_bytes());
             code.push(0xC3);
             a.put(addr, &code);
+        } else if s.shape >= 6 {
+            if !a.put_sled(addr, id, s.shape) {
+                a.put_ret_id(addr, id);
+            }
         } else {
             a.put_shaped(addr, id, s.shape);
         }
@@ -447,6 +460,7 @@ fn execute_inner(c: &HistCase, opts: &Opts) -> HistObs {
             if detailed && opts.logs {
                 lo.new_log = log_events(&evs_new);
             }
+            ip::RACE_MAP_IN.store(life.race_map as i64, SeqCst);
             // model state only for choosing the decode expectation of calls
             let mut top: Vec<Option<(u64, Option<u64>)>> = vec![None; n];
             let mut kept: Vec<(u64, u64)> = vec![]; // live trampolines (addr,len)
@@ -639,6 +653,16 @@ fn execute_inner(c: &HistCase, opts: &Opts) -> HistObs {
                 lo.drop_log = log_events(&evs);
             }
             ip::DENY_WX.store(0, SeqCst);
+            ip::RACE_MAP_IN.store(0, SeqCst);
+            let raced: Vec<u64> = ip::RACED.lock().map(|mut v| std::mem::take(&mut *v)).unwrap_or_default();
+            for p in raced {
+                let mapped = crate::maps::readable(p as usize, 8);
+                let intact = mapped && unsafe { *(p as *const u64) } == ip::RACE_MAGIC;
+                lo.raced.push((p, mapped, intact));
+                if mapped {
+                    unsafe { ip::sys_munmap(p as usize, PAGE) };
+                }
+            }
             crate::worker::phase("post");
             for (i, t) in tg.iter().enumerate() {
                 let now = crate::mem::read_direct(t.addr, 32);
@@ -711,9 +735,9 @@ pub fn strategy_all(max_lifetimes: usize, max_steps: usize, synth_bias_last_slot
     };
     let shape = if rewrites {
         // (C02 only: the snapshot-based judges would see the counter word change)
-        prop_oneof![3 => Just(0u8), 2 => Just(1u8), 1 => Just(2u8), 1 => Just(3u8), 1 => Just(4u8), 2 => Just(5u8)].boxed()
+        prop_oneof![3 => Just(0u8), 2 => Just(1u8), 1 => Just(2u8), 1 => Just(3u8), 1 => Just(4u8), 2 => Just(5u8), 1 => 6u8..=14].boxed()
     } else {
-        prop_oneof![3 => Just(0u8), 2 => Just(1u8), 1 => Just(2u8), 1 => Just(3u8), 1 => Just(4u8)].boxed()
+        prop_oneof![3 => Just(0u8), 2 => Just(1u8), 1 => Just(2u8), 1 => Just(3u8), 1 => Just(4u8), 1 => 6u8..=14].boxed()
     };
     let fine = prop_oneof![3 => Just(0u8), 2 => 1u8..16, 1 => 11u8..16];
     let synth = prop::collection::vec((0u8..5, any::<u64>(), off, prop::bool::weighted(0.3), shape, fine).prop_map(|(class, page, off, boolean, shape, fine)| SynthSpec { class, page, off: if shape % 5 == 0 && shape != 5 { off } else { off.min(0xF80) }, boolean, shape, fine, twin: if (page >> 40) % 3 == 0 { Some((page >> 32) as u8 % 4) } else { None } }), 0..=3);
@@ -741,7 +765,7 @@ pub fn strategy_all(max_lifetimes: usize, max_steps: usize, synth_bias_last_slot
         4 => prop::collection::vec(step.clone(), 0..=max_steps).boxed(),
         1 => (prop::collection::vec(step.clone(), 0..=max_steps / 2), refake, prop::collection::vec(step, 0..=max_steps / 3)).prop_map(|(mut a, b, c)| { a.extend(b); a.extend(c); a }).boxed(),
     ];
-    let life = (steps, prop_oneof![3 => Just(Exit::Normal), 1 => Just(Exit::Unwind)], rw, prop::bool::weighted(deny_wx), prop::bool::weighted(squat)).prop_map(|(steps, exit, rewrite, deny_wx, squat)| Lifetime { steps, exit, rewrite, deny_wx, squat, munmap_fault: 0 });
+    let life = (steps, prop_oneof![3 => Just(Exit::Normal), 1 => Just(Exit::Unwind)], rw, prop::bool::weighted(deny_wx), prop::bool::weighted(squat)).prop_map(|(steps, exit, rewrite, deny_wx, squat)| Lifetime { steps, exit, rewrite, deny_wx, squat, munmap_fault: 0, race_map: 0 });
     (synth, prop::collection::vec(life, 1..=max_lifetimes), any::<u8>()).prop_map(|(synth, lifetimes, focus)| {
         // concentrate the history on a few targets: indices are folded onto a window of 4
         let lifetimes = lifetimes
@@ -762,6 +786,7 @@ pub fn strategy_all(max_lifetimes: usize, max_steps: usize, synth_bias_last_slot
                 deny_wx: l.deny_wx,
                 squat: l.squat,
                 munmap_fault: 0,
+                race_map: 0,
             })
             .collect();
         HistCase { synth, lifetimes, repeat: 1, in_teardown: focus % 11 == 3 }
